@@ -237,7 +237,8 @@ where
     F: FilterNode<G::NodeId>,
 {
     type NodeIdentifiers = NodeFilteredNeighbors<'a, G::NodeIdentifiers, F>;
-    /*+*/open spec fn node_ids(self) -> Seq<G::NodeId> { filt(self.0.node_ids(), inc_of(&self.1)) }/*-*/
+    /*+*/open spec fn node_ids(self) -> Seq<G::NodeId> { filt(self.0.node_ids(), inc_of(&self.1)) }
+    open spec fn ids_inv(self) -> bool { self.0.ids_inv() }/*-*/
     fn node_identifiers(self) -> Self::NodeIdentifiers {
         NodeFilteredNeighbors {
             include_source: true,
